@@ -106,10 +106,10 @@ COUNT_RE = re.compile(r'<<"([A-Za-z0-9_]+)", (\d+)>>')
 STATS_RE = re.compile(r"(\d+) states generated, (\d+) distinct states found")
 
 
-def validate_bundle(base, cfg="MeldaTrace.cfg", timeout=1800):
+def validate_bundle(base, cfg="MeldaTrace.cfg", timeout=1800, module="MeldaTrace.tla", env=None):
     """TLC trace validation of one bundle; returns dict(violations, counts, consumed, total, states)."""
-    env = {"TRACE": base + ".trace.ndjson", "ITEMS": base + ".items.ndjson", "REVS": base + ".revs.ndjson"}
-    rc, out = run_tlc(os.path.join(SPEC, "MeldaTrace.tla"), os.path.join(SPEC, cfg), env=env, timeout=timeout)
+    env = env or {"TRACE": base + ".trace.ndjson", "ITEMS": base + ".items.ndjson", "REVS": base + ".revs.ndjson"}
+    rc, out = run_tlc(os.path.join(SPEC, module), os.path.join(SPEC, cfg), env=env, timeout=timeout)
     res = {"violations": [], "counts": {}, "consumed": 0, "total": -1, "states": 0, "rc": rc, "bundle": base}
     for line in out.splitlines():
         m = VIOL_RE.match(line)
@@ -136,6 +136,25 @@ def validate_dir(d, cfg="MeldaTrace.cfg", jobs=None):
     with ThreadPoolExecutor(max_workers=jobs) as ex:
         results = list(ex.map(lambda b: validate_bundle(b, cfg), bases))
     return results
+
+
+def validate_fn_dir(d, jobs=None):
+    """FnTrace validation of every shard written by `mvh fn`."""
+    shards = sorted(glob.glob(os.path.join(d, "*.fn.ndjson")))
+    revs = os.path.join(d, "revs.ndjson")
+    jobs = jobs or max(1, NCPU - 2)
+    with ThreadPoolExecutor(max_workers=jobs) as ex:
+        return list(ex.map(lambda f: validate_bundle(f, "FnTrace.cfg", module="FnTrace.tla",
+                                                     env={"TRACE": f, "REVS": revs}), shards))
+
+
+def run_fn(which, out_dir, tier, seed, shards=12):
+    os.makedirs(out_dir, exist_ok=True)
+    p = subprocess.run([MVH, "fn", which, "--out", out_dir, "--size", tier, "--seed", str(seed), "--shards", str(shards)],
+                       stdout=subprocess.PIPE, stderr=subprocess.STDOUT, text=True)
+    if p.returncode != 0:
+        raise ToolError("mvh fn %s failed: %s" % (which, p.stdout[-2000:]))
+    return json.loads(p.stdout.strip().splitlines()[-1])
 
 
 def run_hist(specs_path, out_dir, jobs=None, timeout_ms=10000, bundle=20):
